@@ -29,7 +29,18 @@ def gen_language(rng, h):
     F = un[0]
     nops = rng.randint(4, 7)
     for i in range(nops):
-        kind = rng.choice(["mono", "mono", "poly", "poly", "constr", "ho", "data"])
+        kind = rng.choice(["mono", "mono", "poly", "poly", "constr", "ho", "data", "inst"])
+        if kind == "inst":
+            # a signature written without a lambda: a type instance.  With a `_` in
+            # it the one variable would be shared by every use; Operator.validate
+            # rejects such a definition (build_language then drops the operator)
+            params = [E.gen_sty(rng, h, 0, 1, p_var=0, p_wild=0.25) for _ in range(rng.randint(1, 2))]
+            res = E.gen_sty(rng, h, 0, 1, p_var=0, p_wild=0)
+            body = res
+            for p in reversed(params):
+                body = ("o", 3, [p, body])
+            ops.append((f"i{i}", (0, body, []), params, res))
+            continue
         if kind == "data":
             t = rng.choice(base + [("o", F, [rng.choice(base)])])
             ops.append((f"d{i}", (0, t, []), [], t))
@@ -72,9 +83,20 @@ def build_language(h, ops):
     names = {i: (str(h.ops[i]) if i >= 5 else f"op{i}") for i in h.ops}
     env = {str(h.ops[i]): h.ops[i] for i in h.ops if i >= 5}
     env.update({"op0": h.ops[0], "op1": h.ops[1], "op2": h.ops[2], "_": tf._})
+    from transforge.expr import DeclarationError
+    kept = []
     for name, sc, params, res in ops:
         src = E.schema_py(sc, names)
-        scope[name] = tf.Operator(type=eval(src, dict(env)))
+        if name.startswith("i"):
+            src = src.split(":", 1)[1]          # the bare type expression, no lambda
+        op = tf.Operator(type=eval(src, dict(env)))
+        try:
+            op.validate()
+        except DeclarationError:
+            continue                            # an invalid definition is not part of the language
+        scope[name] = op
+        kept.append((name, sc, params, res))
+    ops[:] = kept
     return tf.Language(scope=scope), names
 
 
@@ -116,6 +138,10 @@ def gen_expr(rng, h, ops, target, depth, ninputs, assign=None):
                 return ("src", None)      # function types cannot be written in type notation
             if t[2] and rng.random() < 0.35:
                 t = punch_hole(rng, t)    # `- : F(_)`: parse_type makes a fresh variable per `_`
+            if not has_hole(t) and rng.random() < 0.12:
+                # a second annotation on an already typed source is checked, not taken over
+                t2 = ("o", rng.choice(E.chain_of(h, t[1])), []) if not t[2] and rng.random() < 0.6 else rng.choice(base)
+                return ("ann", ("src", t), t2)
             return ("src", t)
         if q < 0.72:
             return ("src", None)
@@ -123,7 +149,14 @@ def gen_expr(rng, h, ops, target, depth, ninputs, assign=None):
             return ("in", rng.randrange(ninputs))
         data = [o for o in ops if not o[2] and fits_result(h, o[3], target)]
         if data:
-            return ("op", rng.choice(data)[0])
+            d = rng.choice(data)
+            leaf = ("op", d[0])
+            if rng.random() < 0.3 and not has_var(d[3]) and not has_fun(d[3]):
+                # annotate a constant: `c : T` must CHECK c's type against T
+                t = d[3]
+                t = ("o", rng.choice(E.chain_of(h, t[1])), []) if not t[2] and rng.random() < 0.7 else rng.choice(base)
+                return ("ann", leaf, t)
+            return leaf
         return ("src", None)
     fs = [o for o in ops if o[2]]
     if want_fun:
